@@ -59,13 +59,13 @@ func fname(fn *ssa.Function) string { return core.FuncName(fn) }
 type WaitSite struct {
 	Fn        *ssa.Function
 	Call      ssa.CallInstruction
-	Base      string          // path of the struct owning the cond
-	CondField string          // field name of the cond
-	Owner     string          // "pkg.Type" of the owning struct
+	Base      string // path of the struct owning the cond
+	CondField string // field name of the cond
+	Owner     string // "pkg.Type" of the owning struct
 	OwnerPkg  string
 	OwnerType string
-	Header    *ssa.BasicBlock // loop test block
-	Fields    []string        // fields of the owner read by the loop test
+	Header    *ssa.BasicBlock  // loop test block
+	Fields    []string         // fields of the owner read by the loop test
 	KeepConst map[string]int64 // field -> constant K such that `field == K` keeps waiting
 }
 
